@@ -91,6 +91,7 @@ type simHistOpts struct {
 
 // simHistStats describes what a generated history actually exercised.
 type simHistStats struct {
+	GiantRounds                                                                                             int
 	HugeRounds                                                                                              int
 	Evictions                                                                                               int
 	CreateRaces, CreatesOverExisting                                                                        int
@@ -171,15 +172,16 @@ type simHist struct {
 	dedupErr error
 	toolRuns int
 
-	evicted       map[string]bool // dedup oracle: entries evicted from a bounded pool and not admitted again since
-	lastFailed    []*simEntry     // entries whose submitters got an error in the previous round
-	shapeOverride map[int]int
-	curSubmitting *simEntry
-	httpNext      int
-	httpSubs      []*simHTTPSub     // in flight for the coming round
-	httpSent      []int             // ids submitted so far (for resubmissions)
-	scts          map[string][]byte // dedup key -> SCT bytes of the first acknowledgement
-	HTTPAcks      int
+	giantFrom, giantTo int             // ids of the entries of a giant round, some of which the next round submits again
+	evicted            map[string]bool // dedup oracle: entries evicted from a bounded pool and not admitted again since
+	lastFailed         []*simEntry     // entries whose submitters got an error in the previous round
+	shapeOverride      map[int]int
+	curSubmitting      *simEntry
+	httpNext           int
+	httpSubs           []*simHTTPSub     // in flight for the coming round
+	httpSent           []int             // ids submitted so far (for resubmissions)
+	scts               map[string][]byte // dedup key -> SCT bytes of the first acknowledgement
+	HTTPAcks           int
 }
 
 // setRoots installs the simulator's CA as the accepted root of a freshly loaded instance.
@@ -509,6 +511,13 @@ func (h *simHist) run(t *rapid.T) error {
 		} else {
 			entries = h.genEntries(t, n)
 		}
+		// very rarely a round of more than 11000 entries (limits on what one statement or one transaction of the cache can take)
+		if (h.opts.Dedup || h.opts.KillAfter) && rapid.IntRange(0, 59).Draw(t, "giantRound") == 33 {
+			from := h.nextID
+			entries = append(entries, h.genEntries(t, rapid.IntRange(11000, 12500).Draw(t, "giantN"))...)
+			h.st.GiantRounds++
+			h.giantFrom, h.giantTo = from, h.nextID
+		}
 		// rarely a catch-up round of more than five tiles (more than sixteen objects in one staged bundle)
 		if rapid.IntRange(0, 24).Draw(t, "hugeRound") == 17 {
 			entries = append(entries, h.genEntries(t, rapid.IntRange(1400, 2600).Draw(t, "hugeN"))...)
@@ -522,6 +531,13 @@ func (h *simHist) run(t *rapid.T) error {
 				entries = append(entries, simMakeEntry(id, (id%2)|((id/2%2)<<2)|(2<<5)))
 			}
 			h.st.FatRounds++
+		}
+		if h.giantTo > h.giantFrom && r > 0 {
+			for k := 0; k < 3; k++ {
+				id := rapid.IntRange(h.giantFrom, h.giantTo-1).Draw(t, "giantDup")
+				entries = append(entries, simMakeEntry(id, h.shapeOf(id)))
+			}
+			h.giantFrom, h.giantTo = 0, 0
 		}
 		// a client whose submission failed in the previous round typically submits it again right away
 		if len(h.lastFailed) > 0 && rapid.IntRange(0, 2).Draw(t, "resubmitFailed") > 0 {
